@@ -176,7 +176,8 @@ class Check:
         if not self.ensure_driver():
             return None
         with open(cases_path, "rb") as f:
-            p = subprocess.run([DRIVER], stdin=f, stdout=subprocess.PIPE, stderr=subprocess.PIPE, timeout=timeout)
+            env = dict(os.environ, VERIF_ZLIBD=os.path.join(self.scratch, "harness", "h") + " -zlibd")
+            p = subprocess.run([DRIVER], stdin=f, stdout=subprocess.PIPE, stderr=subprocess.PIPE, timeout=timeout, env=env)
         if p.returncode != 0:
             self.notes.append("driver failed: " + p.stderr.decode()[-2000:])
             return None
